@@ -30,7 +30,7 @@ from dataclasses import dataclass, field
 from pathlib import Path
 from typing import Any, Callable, Dict, List, Optional, Tuple
 
-LEAN_TY = {"set": "PSet", "bool": "Bool", "nat": "Nat", "step": "PStep", "unit": "Unit", "boolorset": "BoolOrSet", "str": "String", "natlist": "List Nat"}
+LEAN_TY = {"dict": "PyDict", "pyval": "PyVal", "items": "PyDict", "strlist": "List String", "set": "PSet", "bool": "Bool", "nat": "Nat", "step": "PStep", "unit": "Unit", "boolorset": "BoolOrSet", "str": "String", "natlist": "List Nat"}
 SET_MUTATORS = {"update", "add", "difference_update", "discard", "remove", "clear"}
 LEAN_KEYWORDS = {"from", "to", "end", "at", "in", "do", "then", "else", "if", "let", "have", "show", "fun", "open", "local", "instance", "class", "structure", "def", "theorem", "where", "with", "match", "return", "for", "mut", "unless", "break", "continue", "try", "catch", "finally", "import", "namespace", "section", "variable", "universe", "export", "prefix", "infix", "notation", "macro", "syntax", "deriving", "extends", "abbrev", "example", "axiom", "private", "protected", "partial", "unsafe", "mutual", "inductive", "Type", "Prop", "Sort", "by", "using", "calc", "nomatch", "nofun", "forall", "exists"}
 
@@ -62,6 +62,7 @@ class FnSpec:
     live_in: Dict[str, str] = field(default_factory=dict)  # for slices: local names that are parameters of the generated function
     live_out: List[str] = field(default_factory=list)  # for slices: locals returned at the end (and at `continue`)
     continue_is_return: bool = False  # a slice taken from a loop body: `continue` ends the slice
+    extra_params: List[Tuple[str, str]] = field(default_factory=list)  # further parameters (name, Lean type), e.g. predicates used by isinstance_map
     doc: str = ""
 
 
@@ -78,6 +79,8 @@ class ModuleSpec:
     self_fields: Dict[str, str] = field(default_factory=dict)  # field -> type
     ignore_calls: List[str] = field(default_factory=list)  # "logger.error", "time.sleep" ... (no semantic effect in the model)
     prelude: str = ""
+    imports: List[str] = field(default_factory=lambda: ["MlodaVerif.Model.PyRt"])
+    opens: List[str] = field(default_factory=lambda: ["PyRt"])
 
 
 def lname(n: str) -> str:
@@ -118,6 +121,10 @@ class FnTranslator:
                 if tgt in self.env and self.env[tgt] == "set" and tgt not in self.mutated:
                     self.mutated.append(tgt)
                 elif tgt and tgt.startswith("self.") and tgt[5:] in self.ms.self_fields:
+                    self.self_mut = True
+            if isinstance(node, ast.Assign) and len(node.targets) == 1 and isinstance(node.targets[0], ast.Subscript):
+                tgt = dotted(node.targets[0].value)
+                if tgt and tgt.startswith("self.") and tgt[5:] in self.ms.self_fields:
                     self.self_mut = True
             if isinstance(node, ast.AugAssign):
                 tgt = dotted(node.target)
@@ -227,9 +234,12 @@ class FnTranslator:
             r, rt = self.expr(e.comparators[0], pre)
             op = e.ops[0]
             if isinstance(op, (ast.In, ast.NotIn)):
-                if rt != "set":
+                if rt == "dict" and lt == "str":
+                    t = f"PyDict.has {r} {l}"
+                elif rt == "set":
+                    t = f"PSet.has {r} {l}"
+                else:
                     raise Unsupported(f"`in` on {rt}")
-                t = f"PSet.has {r} {l}"
                 return (f"!({t})" if isinstance(op, ast.NotIn) else f"({t})"), "bool"
             if isinstance(op, (ast.Eq, ast.NotEq)):
                 if lt == "set" and rt == "set":
@@ -243,6 +253,18 @@ class FnTranslator:
             if sym and lt == "nat" and rt == "nat":
                 return f"decide ({l} {sym} {r})", "bool"
             raise Unsupported(f"comparison {ast.dump(op)} between {lt} and {rt}")
+        if isinstance(e, ast.Subscript):
+            d, dty = self.expr(e.value, pre)
+            k, kty = self.expr(e.slice, pre)
+            if dty == "dict" and kty == "str":
+                return f"(← PyDict.getItem {d} {k})", "pyval"
+            raise Unsupported(f"subscript of {dty} by {kty}")
+        if isinstance(e, ast.BinOp) and isinstance(e.op, ast.Add):
+            l, lt = self.expr(e.left, pre)
+            r, rt = self.expr(e.right, pre)
+            if lt == rt and lt in ("items", "strlist", "natlist"):
+                return f"({l} ++ {r})", lt
+            raise Unsupported(f"+ between {lt} and {rt}")
         if isinstance(e, ast.Call):
             return self.call(e, pre)
         raise Unsupported(f"expression {type(e).__name__}: {ast.unparse(e)}")
@@ -291,6 +313,23 @@ class FnTranslator:
             if aty != "set" or bty != "set":
                 raise Unsupported(f"{e.func.attr} on {aty},{bty}")
             return (f"(PSet.issubset {a} {b})", "bool") if e.func.attr == "issubset" else (f"(PSet.intersection {a} {b})", "set")
+        if d == "list" and len(e.args) == 1:
+            t, ty = self.expr(e.args[0], pre)
+            if ty in ("items", "strlist", "natlist"):
+                return t, ty  # list(view) of an insertion-ordered dict view is the association list itself
+            raise Unsupported(f"list() of {ty}")
+        if isinstance(e.func, ast.Attribute) and e.func.attr in ("items", "keys", "get") and dotted(e.func) not in self.ms.getters and dotted(e.func) not in self.ms.opaque:
+            recv, rty = self.expr(e.func.value, pre)
+            if rty == "dict":
+                if e.func.attr == "items" and not e.args:
+                    return recv, "items"
+                if e.func.attr == "keys" and not e.args:
+                    return f"(PyDict.keys {recv})", "strlist"
+                if e.func.attr == "get" and len(e.args) == 2 and isinstance(e.args[1], ast.Constant) and e.args[1].value is None:
+                    k, kty = self.expr(e.args[0], pre)
+                    if kty == "str":
+                        return f"((PyDict.get? {recv} {k}).getD PyVal.none)", "pyval"
+                raise Unsupported(f"dict method call {ast.unparse(e)}")
         if d in self.ms.getters and not e.args:
             return self.ms.getters[d]
         if d and d.startswith("self.") and d[5:] in self.mod.translated:
@@ -324,6 +363,8 @@ class FnTranslator:
         if callee.spec.self_type:
             call += " self"
         call += "".join(" " + t for t in texts)
+        for n_, _ in callee.spec.extra_params:
+            call += " " + lname(n_)
         for o in callee.oracles:
             call += " " + lname(o)
         if callee.effects:
@@ -365,6 +406,10 @@ class FnTranslator:
     def call_opaque(self, d: str, e: ast.Call, pre: List[str]) -> Tuple[str, str]:
         o = self.ms.opaque[d]
         ev = f'log := log ++ ["{o.event}"]'
+        if o.raise_arg is not None:
+            arg0 = e.func.value if o.raise_arg == -1 else e.args[o.raise_arg]  # type: ignore[attr-defined]
+            t0, _ = self.expr(arg0, pre)
+            ev = f'log := log ++ ["{o.event}:" ++ toString {t0}]'
         if o.may_raise:
             if self.try_flag is None:
                 raise Unsupported(f"{d} may raise but is called outside try/except")
@@ -462,6 +507,17 @@ class FnTranslator:
             else:
                 raise Unsupported(f"augmented assignment {ast.unparse(s)}")
             return
+        if isinstance(s, ast.Assign) and len(s.targets) == 1 and isinstance(s.targets[0], ast.Subscript):
+            tg = s.targets[0]
+            dd = dotted(tg.value)
+            k, kty = self.expr(tg.slice, pre)
+            v, vty = self.expr(s.value, pre)
+            self.flush(ind, pre)
+            if dd and dd.startswith("self.") and self.ms.self_fields.get(dd[5:]) == "dict" and kty == "str" and vty == "pyval":
+                f = lname(dd[5:])
+                self.emit(ind, f"self := {{ self with {f} := PyDict.set self.{f} {k} {v} }}")
+                return
+            raise Unsupported(f"item assignment {ast.unparse(s)}")
         if isinstance(s, ast.Assign):
             if len(s.targets) != 1 or not isinstance(s.targets[0], ast.Name):
                 raise Unsupported(f"assignment target {ast.unparse(s)}")
@@ -568,6 +624,8 @@ class FnTranslator:
             params.append(f"(self : {self.spec.self_type})")
         for n, ty in list(self.spec.params.items()) + list(self.spec.live_in.items()):
             params.append(f"({lname(n)} : {LEAN_TY[ty]})")
+        for n, ty in self.spec.extra_params:
+            params.append(f"({lname(n)} : {ty})")
         for o, ty in self.oracles.items():
             params.append(f"({lname(o)} : {ty})")
         if self.effects:
@@ -576,7 +634,7 @@ class FnTranslator:
         for m in self.mutated:
             self.emit(1, f"let mut {lname(m)} := {lname(m)}")
         for lo in self.spec.live_out:
-            if lo not in self.mutated:
+            if lo not in self.mutated and lo in self.env:
                 self.emit(1, f"let mut {lname(lo)} := {lname(lo)}")
         if self.self_mut:
             self.emit(1, "let mut self := self")
@@ -626,7 +684,7 @@ class ModuleTranslator:
         return fs[0]
 
     def run(self, namespace: str) -> str:
-        out = [f"/- translated by harness/pytrans.py from {self.spec.path} (subset translator; see its docstring) -/", "import MlodaVerif.Model.PyRt", f"namespace {namespace}", "open PyRt", ""]
+        out = [f"/- translated by harness/pytrans.py from {self.spec.path} (subset translator; see its docstring) -/", *[f"import {m}" for m in self.spec.imports], f"namespace {namespace}", *[f"open {o}" for o in self.spec.opens], ""]
         if self.spec.prelude:
             out.append(self.spec.prelude)
         for fs in self.spec.functions:
